@@ -571,7 +571,12 @@ def oracle_volume(atoms, args, kw):
     a = par["a"]
     b = par.get("b", a)
     c = par.get("c", a)
-    ca, cb, cg = (math.cos(math.radians(par.get(k, 90.0))) if par.get(k) is not None else 0.0 for k in ("alpha", "beta", "gamma"))
+    # defaults as documented by util.cell_volume: alpha defaults to 90 deg, beta and gamma default to alpha
+    # (the property statement gives the formula but fixes no defaults)
+    al = par.get("alpha")
+    ca = math.cos(math.radians(al)) if al is not None else 0.0
+    cb = math.cos(math.radians(par["beta"])) if par.get("beta") is not None else ca
+    cg = math.cos(math.radians(par["gamma"])) if par.get("gamma") is not None else ca
     return "value", a * b * c * math.sqrt(1 - ca * ca - cb * cb - cg * cg + 2 * ca * cb * cg) * 1e-24
 
 
@@ -683,7 +688,7 @@ def task_volume(tier, seed, arg):
         # only some angles given, alpha among them: the others default to 90
         while True:
             al = round(rng.uniform(55.0, 125.0), 2)
-            if _valid_cell(al, ang[1], 90.0) and _valid_cell(al, 90.0, ang[2]):
+            if _valid_cell(al, ang[1], al) and _valid_cell(al, al, ang[2]) and _valid_cell(al, al, al):
                 break
         run([], {"a": a, "alpha": al}, "volume:lattice:angle_default")
         run([], {"a": a, "b": b, "c": c, "alpha": al, "beta": ang[1]}, "volume:lattice:angle_default")
